@@ -42,6 +42,23 @@ Proof.
     rewrite (det3_ext _ _ (mof_givens 3 p q _ ltac:(lia) ltac:(lia) ltac:(lia))).
     rewrite det3_givens by lia. rewrite cs1. ring.
 Qed.
+Lemma rotate_loop_det4 : forall angs planes i M,
+  Forall (fun pl => (fst pl < snd pl < 4)%nat) planes -> wfm 4 4 M -> det4 (mof M) = 1 ->
+  det4 (mof (rotate_loop RO 4 i angs planes M)) = 1.
+Proof.
+  induction angs as [|a angs IH]; intros planes i M HP HM HD; [exact HD|].
+  destruct planes as [|[p q] planes]; [exact HD|]. inversion HP as [|? ? Hpq HP']; subst. simpl in Hpq.
+  cbn [rotate_loop]. assert (HG := wfm_givens 4 (p, q) (alt RO i a)). apply IH; auto.
+  - apply (wfm_matmul 4 4 4); auto.
+  - rewrite (det4_ext _ _ (mof_matmul 4 4 4 _ _ HG HM (Nat.lt_0_succ 3))), det4_mmul, HD.
+    rewrite (det4_ext _ _ (mof_givens 4 p q _ ltac:(lia) ltac:(lia) ltac:(lia))).
+    rewrite det4_givens by lia. rewrite cs1. ring.
+Qed.
+Theorem rotate_det4 angles : det4 (mof (matrix_rotate RO 4 angles)) = 1.
+Proof.
+  unfold matrix_rotate. apply rotate_loop_det4. { apply planes_ok. } { apply wfm_eye. }
+  rewrite (det4_ext _ _ (mof_eye 4)). apply det4_delta.
+Qed.
 Theorem rotate_det2 angles : det2 (mof (matrix_rotate RO 2 angles)) = 1.
 Proof.
   unfold matrix_rotate. apply rotate_loop_det2. { apply planes_ok. } { apply wfm_eye. }
@@ -340,8 +357,9 @@ Proof.
 Qed.
 
 Theorem rotate_det_one angles :
-  matrix_rotate RO 1 angles = [[1]] /\ det2 (mof (matrix_rotate RO 2 angles)) = 1 /\ det3 (mof (matrix_rotate RO 3 angles)) = 1.
-Proof. repeat split; [apply rotate_det2 | apply rotate_det3]. Qed.
+  matrix_rotate RO 1 angles = [[1]] /\ det2 (mof (matrix_rotate RO 2 angles)) = 1 /\
+  det3 (mof (matrix_rotate RO 3 angles)) = 1 /\ det4 (mof (matrix_rotate RO 4 angles)) = 1.
+Proof. repeat split; [apply rotate_det2 | apply rotate_det3 | apply rotate_det4]. Qed.
 
 (* the hypotheses used by the theorems are satisfiable *)
 Example hypotheses_satisfiable :
